@@ -6,7 +6,7 @@ namespace Llir.Props.C01
 open Llir Llir.Whole
 
 /-- **Whole modules round-trip**: a module made of identified-struct type definitions, global variables with nested aggregate constants,
-    function definitions (any number of parameters and blocks, the 76 instruction rows) and a metadata section, printed as ONE text the way
+    function definitions (any number of parameters and blocks, the 82 instruction rows) and a metadata section, printed as ONE text the way
     `Module.String()` prints it, is split into its top-level entities, read and translated back to the module itself — provided each part is in
     its fragment (`Core2.WF`, type definitions already in natural-sort order, `Core3.wfIn`, `Meta.wf`) and the cross-fragment conditions hold
     (`crossOK`: no name shared by two globals / functions, every named type a function mentions is defined; `Core3.wfIn (genvOf …)`: every `@name`
